@@ -118,4 +118,38 @@ MUTANTS = [
     M("chain-inner-burnin", MCMC, "                    burn_in=burn_in,\n", "                    burn_in=const(0),\n", ["C18"]),
     M("chain-rate", MCMC, "acceptance_rate = jnp.mean(final_accepts)", "acceptance_rate = jnp.mean(accepts)", ["C18"]),
     M("chain-nsteps", MCMC, "final_n_steps = len(indices)", "final_n_steps = n_steps.value", ["C18"]),
+    # ---------------- SMC
+    M("smc-init-score-sign", SMC, "log_weight = target_weight + proposal_score", "log_weight = target_weight - proposal_score", ["C10"]),
+    M("smc-init-merge-order", SMC, "merged_choices, _ = target_gf.merge(proposal_choices, constraints)", "merged_choices, _ = target_gf.merge(constraints, proposal_choices)", ["C10"]),
+    M("smc-init-axis", SMC, "            _single_default_importance_sample,\n            in_axes=(None, None, None),\n            axis_size=n_samples.value,", "            _single_default_importance_sample,\n            in_axes=(None, None, None),\n            axis_size=n_samples.value + 1,", ["C10"]),
+    M("smc-extend-drop-old", SMC, "            # Weight is just the target weight (no proposal correction needed)\n            new_log_weight = old_log_weight + log_weight", "            # Weight is just the target weight (no proposal correction needed)\n            new_log_weight = log_weight", ["C10"]),
+    M("smc-extend-noscore", SMC, "            new_log_weight = old_log_weight + log_weight + proposal_score\n\n        return new_trace, new_log_weight\n\n    # Vectorize across particles\n    vectorized_extension = modular_vmap(\n        _single_extension,", "            new_log_weight = old_log_weight + log_weight\n\n        return new_trace, new_log_weight\n\n    # Vectorize across particles\n    vectorized_extension = modular_vmap(\n        _single_extension,", ["C10"]),
+    M("smc-extend-reset-est", SMC, "        n_samples=particles.n_samples,\n        log_marginal_estimate=particles.log_marginal_estimate,\n        # diagnostic_weights will be computed from new_log_weights in _create_particle_collection\n    )\n\n\ndef rejuvenate", "        n_samples=particles.n_samples,\n        # diagnostic_weights will be computed from new_log_weights in _create_particle_collection\n    )\n\n\ndef rejuvenate", ["C10"]),
+    M("smc-rejuv-weight", SMC, "        return new_trace, old_log_weight\n", "        return new_trace, old_log_weight - new_trace.get_score() + old_trace.get_score()\n", ["C10"]),
+    M("smc-lml-nolog", SMC, "        current_marginal = jax.scipy.special.logsumexp(self.log_weights) - jnp.log(\n            self.n_samples.value\n        )\n        return self.log_marginal_estimate + current_marginal", "        current_marginal = jax.scipy.special.logsumexp(self.log_weights)\n        return self.log_marginal_estimate + current_marginal", ["C10", "C12"]),
+    M("smc-ess-nosq", SMC, "return 1.0 / jnp.sum(weights_normalized**2)", "return 1.0 / jnp.sum(weights_normalized)", ["C10"]),
+    M("smc-step-carry", SMC, "        return particles, particles  # (carry, output)", "        return particles, obs  # (carry, output)", ["C10"]),
+    M("smc-cond-thresh", SMC, "        ess < n_particles.value // 2,\n        lambda p: resample(p),\n        lambda p: p,\n        particles,\n    )\n\n    # Apply initial", "        ess > n_particles.value // 2,\n        lambda p: resample(p),\n        lambda p: p,\n        particles,\n    )\n\n    # Apply initial", ["C10"]),
+    M("smc-change-weight", SMC, "new_log_weight = old_log_weight + log_weight\n\n        return new_trace, new_log_weight\n\n    # Vectorize across particles\n    vectorized_change", "new_log_weight = log_weight\n\n        return new_trace, new_log_weight\n\n    # Vectorize across particles\n    vectorized_change", ["C10"]),
+    # ---------------- resampling
+    M("res-noreset", SMC, "uniform_log_weights = jnp.zeros(particles.n_samples.value)", "uniform_log_weights = particles.log_weights - jax.scipy.special.logsumexp(particles.log_weights)", ["C12"]),
+    M("res-est-nolog", SMC, "    current_marginal = jax.scipy.special.logsumexp(particles.log_weights) - jnp.log(\n        particles.n_samples.value\n    )\n\n    # Update accumulated", "    current_marginal = jax.scipy.special.logsumexp(particles.log_weights)\n\n    # Update accumulated", ["C12"]),
+    M("res-diag-post", SMC, "diagnostic_weights=log_normalized_weights,  # Store pre-resampling normalized weights", "diagnostic_weights=uniform_log_weights,  # Store pre-resampling normalized weights", ["C12"]),
+    M("res-leaf-first", SMC, "        return leaf[indices]\n", "        return leaf[indices[0]]\n", ["C12", "C05"]),
+    M("res-cat-count", SMC, "indices = categorical.sample(log_weights, sample_shape=(n_samples,))", "indices = categorical.sample(log_weights, sample_shape=(n_samples - 1,))", ["C12"]),
+    M("sys-u-per-pos", SMC, "u = uniform.sample(0.0, 1.0)\n    positions = (jnp.arange(n_samples) + u) / n_samples", "u = uniform.sample(0.0, 1.0, sample_shape=(n_samples,))\n    positions = (jnp.arange(n_samples) + u) / n_samples", ["C12"]),
+    M("sys-positions", SMC, "positions = (jnp.arange(n_samples) + u) / n_samples", "positions = (jnp.arange(n_samples) + u) / (n_samples + 1)", ["C12"]),
+    M("sys-nocumsum", SMC, "cumsum = jnp.cumsum(weights)", "cumsum = jnp.cumsum(log_weights_normalized)", ["C12"]),
+    M("res-wrong-weights", SMC, "        particles.traces,\n        particles.log_weights,\n        particles.n_samples.value,\n        method=method,", "        particles.traces,\n        particles.diagnostic_weights,\n        particles.n_samples.value,\n        method=method,", ["C12"]),
+    # ---------------- VI
+    M("elbo-sign", VI, "return p_density + q_score", "return p_density - q_score", ["C17"]),
+    M("elbo-merge-order", VI, "merged_choices, _ = target_gf.merge(constraint, tr.get_choices())", "merged_choices, _ = target_gf.merge(tr.get_choices(), constraint)", ["C17"]),
+    M("elbo-args", VI, "p_density, _ = target_gf.assess(merged_choices, *target_args)", "p_density, _ = target_gf.assess(merged_choices, *variational_params)", ["C17"]),
+    M("vi-descent", VI, "new_params = params + learning_rate * param_grad", "new_params = params - learning_rate * param_grad", ["C17"]),
+    M("vi-history-pre", VI, "return new_params, (new_params, 0.0)  # Placeholder loss for now", "return new_params, (params, 0.0)  # Placeholder loss for now", ["C17"]),
+    M("vi-carry-stale", VI, "            return new_params, 0.0", "            return params, 0.0", ["C17"]),
+    M("vi-meanfield-std", VI, "cov = jnp.diag(stds**2)", "cov = jnp.diag(stds)", ["C17"]),
+    M("vi-fullcov", VI, "cov = chol_cov @ chol_cov.T", "cov = chol_cov.T @ chol_cov", ["C17"]),
+    M("vi-estimator-swap", VI, "    if gradient_estimator == \"reparam\":\n        mvnormal_fn = multivariate_normal_reparam\n    elif gradient_estimator == \"reinforce\":\n        mvnormal_fn = multivariate_normal_reinforce\n    else:\n        raise ValueError(f\"Unknown gradient estimator: {gradient_estimator}\")\n\n    @gen\n    def variational_family(constraint, params):\n        \"\"\"\n        Mean-field",
+      "    if gradient_estimator == \"reparam\":\n        mvnormal_fn = multivariate_normal_reinforce\n    elif gradient_estimator == \"reinforce\":\n        mvnormal_fn = multivariate_normal_reparam\n    else:\n        raise ValueError(f\"Unknown gradient estimator: {gradient_estimator}\")\n\n    @gen\n    def variational_family(constraint, params):\n        \"\"\"\n        Mean-field", ["C17"]),
 ]
